@@ -10,9 +10,9 @@ token as JSON nested lists (`json.loads`) whose shape must be the declared one.
 
 Scalar string nodes: `"…"` up to the end of the line, where `\\"` and `\\'` stand for quote characters
 (`DIP._determine_node` replaces them by place-holders before the node parser runs and puts the quote characters back
-afterwards; every other `"` closes the value).  NOT modelled (the reader answers `none`): arrays of strings
-(`'[…]'`, JSON with `\\uXXXX` escapes) and string values whose text contains `$` (the place-holders are `$@00`,
-`$@01`, `$@02`: a value that contains such a text itself is decoded as well).
+afterwards; every other `"` closes the value).  Arrays of strings: `'[…]'`, JSON nested lists of strings with
+`\\uXXXX` escapes (`dipStrArr`).  NOT modelled (the reader answers `none`): string values whose text contains `$`
+(the place-holders are `$@00`, `$@01`, `$@02`: a value that contains such a text itself is decoded as well).
 -/
 namespace SciVerif.C19
 
@@ -76,7 +76,83 @@ def dipStrGo : Bool → Str → Option (Str × Str)
     else if d = '\\' then (dipStrGo true r).map (fun vt => ('\\' :: vt.1, vt.2))
     else (dipStrGo false r).map (fun vt => ('\\' :: d :: vt.1, vt.2))
 
-/-- a scalar string node: `"…"` up to the end of the line (string nodes carry no unit) -/
+/-! ### arrays of strings: `'[["a","b"],["c\\u0022","d"]]'`
+
+The value is one single-quoted text up to the end of the line (`part_value`, alternative `'(.*?)'`); `cast_value`
+reads it with `json.loads` as nested lists of JSON strings and the shape must be the declared one.  The exporter
+writes every `"`, backslash and `'` of an element and every character outside ASCII as `\\uXXXX` (beyond the BMP as
+a surrogate pair), so inside the single quotes there is no `'`, and a `"` only as a string delimiter.  The bracket
+machine is run with `Quoting.doubled` (a backslash is an ordinary character for it, which is what finding the end
+of such a string needs), and `jsonGo` then refuses every body that contains a `"`: texts with `\\"` or `""` are
+not covered (`none`), never misread. -/
+
+def hexVal (c : Char) : Option Nat :=
+  if 48 ≤ c.toNat ∧ c.toNat ≤ 57 then some (c.toNat - 48)
+  else if 97 ≤ c.toNat ∧ c.toNat ≤ 102 then some (c.toNat - 87)
+  else if 65 ≤ c.toNat ∧ c.toNat ≤ 70 then some (c.toNat - 55)
+  else none
+
+/-- where the JSON string decoder is: between characters, after a backslash, inside `\\uXXXX` with `k` more digits
+    to come after the next one and the digits read so far worth `acc` -/
+inductive JMode | plain | bs | hex (k acc : Nat)
+
+/-- the characters of a JSON string (between its quotes) as `json.loads` decodes them, for the escapes the exporter
+    writes: `\\uXXXX` is the character with that code, a high surrogate must be followed directly by a `\\uXXXX`
+    low surrogate and the two make one character.  The second argument is a pending high surrogate.  Not covered
+    (`none`): the two-character escapes (`\\n`, `\\"`, …), a raw `"` or control character, a lone surrogate. -/
+def jsonGo : JMode → Option Nat → Str → Option Str
+  | .plain, hi, [] => if hi = none then some [] else none
+  | .bs, _, [] => none
+  | .hex _ _, _, [] => none
+  | .plain, hi, ch :: r =>
+    if ch = '\\' then jsonGo .bs hi r
+    else if hi ≠ none ∨ ch = '"' ∨ ch.toNat < 32 then none
+    else (jsonGo .plain none r).map (ch :: ·)
+  | .bs, hi, ch :: r => if ch = 'u' then jsonGo (.hex 3 0) hi r else none
+  | .hex k acc, hi, ch :: r =>
+    match hexVal ch with
+    | none => none
+    | some d =>
+      if k ≠ 0 then jsonGo (.hex (k - 1) (acc * 16 + d)) hi r
+      else match hi with
+        | none =>
+          if acc * 16 + d < 55296 ∨ 57343 < acc * 16 + d then
+            (jsonGo .plain none r).map (Char.ofNat (acc * 16 + d) :: ·)
+          else if acc * 16 + d < 56320 then jsonGo .plain (some (acc * 16 + d)) r
+          else none
+        | some h =>
+          if 56320 ≤ acc * 16 + d ∧ acc * 16 + d ≤ 57343 then
+            (jsonGo .plain none r).map (Char.ofNat (65536 + (h - 55296) * 1024 + (acc * 16 + d - 56320)) :: ·)
+          else none
+
+/-- one JSON string token `"…"` -/
+def jsonTok (tok : Str) : Option Scalar :=
+  ((unquote .doubled tok).bind (jsonGo .plain none)).map .s
+
+mutual
+def interpJ : TokTree → Option Val
+  | .leaf t => (jsonTok t).map .leaf
+  | .arr ts => (interpJList ts).map .arr
+def interpJList : List TokTree → Option (List Val)
+  | [] => some []
+  | t :: ts => do
+    let v ← interpJ t
+    let vs ← interpJList ts
+    some (v :: vs)
+end
+
+/-- an array of strings: `'[…]'` up to the end of the line, no `'` and no `$` inside -/
+def dipStrArr (name : Str) (bits : Nat) (d : List Nat) (rest : Str) : Option Param := do
+  let body ← dropLastChar? '\'' rest
+  if body.all (fun c => c ≠ '$' ∧ c ≠ '\'') then
+    let tree ← parseInit .doubled '[' ']' body
+    let sh ← rectShape tree
+    if sh ≠ d then none else
+    let v ← interpJ tree
+    some ⟨name, .str, bits, v, none, []⟩
+  else none
+
+/-- a string node: scalar `"…"` up to the end of the line, or an array `'[…]'` (string nodes carry no unit) -/
 def dipStrLine (name : Str) (bits : Nat) (dims : Option (List Nat)) (r : Str) : Option Param :=
   match dims, r with
   | none, '"' :: body =>
@@ -85,6 +161,7 @@ def dipStrLine (name : Str) (bits : Nat) (dims : Option (List Nat)) (r : Str) : 
       | some (v, []) => some ⟨name, .str, bits, .leaf (.s v), none, []⟩
       | _ => none
     else none
+  | some d, '\'' :: rest => dipStrArr name bits d rest
   | _, _ => none
 
 /-- one exported line read back as a parameter: name, kind, precision, value, unit (no tags) -/
